@@ -450,6 +450,78 @@ theorem errfree_alignments_give_rawerrfree_realign_partial (f14 : Bool) (R query
       simp only at h2
       rw [key, h2]
 
+/-! ### non-vacuity of the alignment-level theorems: reference `GGGAGGTGGG`, SNVs `A>C` at 3 and `T>G` at 6, truth `0|1`, `1|0`;
+read `r1` (`6M` at 2) copies haplotype 0, read `r2` (`2S7M` at 1, with base qualities) copies haplotype 1 -/
+section NonVacuityAlign
+private instance {ε α} [DecidableEq ε] [DecidableEq α] : DecidableEq (Except ε α) := fun a b =>
+  match a, b with
+  | .ok x, .ok y => if h : x = y then isTrue (by rw [h]) else isFalse (by intro e; cases e; exact h rfl)
+  | .error x, .error y => if h : x = y then isTrue (by rw [h]) else isFalse (by intro e; cases e; exact h rfl)
+  | .ok _, .error _ => isFalse (by intro e; cases e)
+  | .error _, .ok _ => isFalse (by intro e; cases e)
+
+def exR : Seq := ['G', 'G', 'G', 'A', 'G', 'G', 'T', 'G', 'G', 'G']
+def exVs : List Variant := [⟨3, ['A'], [['C']]⟩, ⟨6, ['T'], [['G']]⟩]
+def exHapAt (p : Nat) : Nat := if p = 6 then 1 else 0
+def exHsrc (k : Nat × String) : Bool := k.2 == "r2"
+def exCfg : ReadCfg := ⟨20, false, false, 100000, 10, none, Fixes.all, false, false⟩
+def exA1 : Aln := ⟨"r1", 0, 60, some "rg1", 2, some [(0, 6)], some ['G', 'A', 'G', 'G', 'G', 'G'], none, "", -1, some (-1), 0⟩
+def exA2 : Aln := ⟨"r2", 0, 60, some "rg1", 1, some [(4, 2), (0, 7)], some ['T', 'T', 'G', 'G', 'C', 'G', 'G', 'T', 'G'],
+  some [25, 25, 25, 25, 25, 25, 25, 25, 25], "", -1, some (-1), 0⟩
+def exSrc : Source := ⟨[("rg1", some "S1")], [exA2, exA1]⟩
+
+theorem exSnvInput : SnvInput exVs := by
+  refine ⟨?_, by decide⟩
+  intro v hv
+  simp only [exVs, List.mem_cons, List.mem_nil_iff, or_false] at hv
+  rcases hv with rfl | rfl
+  · exact ⟨'A', 'C', rfl, rfl, by decide⟩
+  · exact ⟨'T', 'G', rfl, rfl, by decide⟩
+
+theorem exHapAt_le (p : Nat) : exHapAt p ≤ 1 := by unfold exHapAt; split <;> omega
+
+theorem exAlns : AlnsErrFree exCfg [exSrc] (some "S1") exR exVs exHapAt exHsrc := by
+  intro a ha
+  have hst : oks (usableStream exCfg [exSrc] (some "S1") none) = [exA2, exA1] := by decide
+  have hm : a ∈ oks (usableStream exCfg [exSrc] (some "S1") none) := (mem_oks _ _).2 ha
+  rw [hst] at hm
+  simp only [List.mem_cons, List.mem_nil_iff, or_false] at hm
+  rcases hm with rfl | rfl
+  · exact ⟨_, _, rfl, rfl, by decide, by decide, (fun l hl => by cases hl; exact ⟨rfl, by decide⟩),
+      (errFreeAlnB_iff _ _ _ _ _).mp (by decide)⟩
+  · exact ⟨_, _, rfl, rfl, by decide, by decide, (fun l hl => by cases hl),
+      (errFreeAlnB_iff _ _ _ _ _).mp (by decide)⟩
+
+def exPipeView : Bool :=
+  match samplePipeline exCfg [exSrc] (some "S1") exVs none (fun _ => 0) 15 [] [] with
+  | .ok out => out.stage.selected.map (fun r => (r.name, r.variants)) == [("r1", [(3, 0, 30), (6, 1, 30)]), ("r2", [(3, 1, 25), (6, 0, 25)])]
+      && out.positions == [3, 6] && (mkInst out.positions out.raws 1 [] (hetGeno out.positions.length) []).isSome
+  | .error _ => false
+
+def exReadOk : Bool := match readModel exCfg [exSrc] (some "S1") none exVs none with | .ok _ => true | .error _ => false
+
+/-- the composed model on the example: both reads are kept, `r1` carries `0, 1` and `r2` carries `1, 0` (quality = base quality
+25), the columns are 3 and 6, `PedigreeDPTable`'s conversion succeeds -/
+example : exPipeView = true := by decide +kernel
+
+example : ∃ reads, readModel exCfg [exSrc] (some "S1") none exVs none = .ok reads ∧
+    RawErrFree (reads.map toRaw) exHapAt (srcOf exHsrc reads) := by
+  have hok : exReadOk = true := by decide +kernel
+  unfold exReadOk at hok
+  split at hok
+  · rename_i reads h
+    exact ⟨reads, h, (errfree_alignments_give_rawerrfree exCfg [exSrc] (some "S1") exR exVs exHapAt exHsrc exSnvInput exHapAt_le
+      exAlns reads h).1⟩
+  · cases hok
+
+/-- the re-alignment call of the partial theorem on read `r2` and the SNV at 3 (overhang 2): allele 1, quality 30 -/
+example : realignQ true none ⟨3, ['A'], [['C']]⟩ none ['T', 'T', 'G', 'G', 'C', 'G', 'G', 'T', 'G'] ([(4, 2)] ++ (0, 7) :: [])
+    [(4, 2)].length (3 - (1 + refLen [(4, 2)])) ((qLen [(4, 2)] + (3 - (1 + refLen [(4, 2)])) : Nat) : Int) exR 2 = .ok (some (1, 30)) :=
+  errfree_alignments_give_rawerrfree_realign_partial true exR _ 3 'A' 'C' 1 (by decide) [(4, 2)] [] 0 7 1 2 rfl (by decide) (by decide)
+    (by decide) (by decide) ⟨by decide, by decide⟩ (by decide) (Or.inl (by decide)) (Or.inl (by decide)) (by decide)
+
+end NonVacuityAlign
+
 end stages
 
 /-! ## The premise "the reads given for a sample": which alignments are a sample's reads (round 8)
